@@ -10,6 +10,7 @@ pub mod c16;
 pub mod c15;
 pub mod c18;
 pub mod c13;
+pub mod c17;
 
 pub fn run(args: &Args) -> i32 {
     match args.prop.as_str() {
@@ -24,6 +25,7 @@ pub fn run(args: &Args) -> i32 {
         "C15" => c15::run(args),
         "C18" => c18::run(args),
         "C13" => c13::run(args),
+        "C17" => c17::run(args),
         other => {
             eprintln!("no driver for property {other}");
             2
